@@ -253,7 +253,6 @@ func mergeUlimit(_ any, o any, p tree.Path) (any, error) {
 }
 
 func mergeIPAMConfig(c any, o any, path tree.Path) (any, error) {
-	var ipamConfigs []any
 	base, ok := c.([]any)
 	if !ok {
 		return nil, fmt.Errorf("cannot override %s", path)
@@ -262,41 +261,33 @@ func mergeIPAMConfig(c any, o any, path tree.Path) (any, error) {
 	if !ok {
 		return nil, fmt.Errorf("cannot override %s", path)
 	}
+	// configs are keyed by subnet: an override refines the base config of the same subnet, base configs the
+	// override does not mention are kept, configs for new subnets are appended
+	ipamConfigs := make([]any, 0, len(base)+len(overrides))
 	for _, original := range base {
 		right, err := convertIntoMapping(original, nil, path)
 		if err != nil {
 			return nil, err
 		}
-		for _, override := range overrides {
-			left, err := convertIntoMapping(override, nil, path)
-			if err != nil {
-				return nil, err
-			}
-			if left["subnet"] != right["subnet"] {
-				// check if left is already in ipamConfigs, add it if not and continue with the next config
-				if !slices.ContainsFunc(ipamConfigs, func(a any) bool {
-					return a.(map[string]any)["subnet"] == left["subnet"]
-				}) {
-					ipamConfigs = append(ipamConfigs, left)
-					continue
-				}
-			}
-			merged, err := mergeMappings(right, left, path)
-			if err != nil {
-				return nil, err
-			}
-			// find index of potential previous config with the same subnet in ipamConfigs
-			indexIfExist := slices.IndexFunc(ipamConfigs, func(a any) bool {
-				return a.(map[string]any)["subnet"] == merged["subnet"]
-			})
-			// if a previous config is already in ipamConfigs, replace it
-			if indexIfExist >= 0 {
-				ipamConfigs[indexIfExist] = merged
-			} else {
-				// or add the new config to ipamConfigs
-				ipamConfigs = append(ipamConfigs, merged)
-			}
+		ipamConfigs = append(ipamConfigs, right)
+	}
+	for _, override := range overrides {
+		left, err := convertIntoMapping(override, nil, path)
+		if err != nil {
+			return nil, err
 		}
+		indexIfExist := slices.IndexFunc(ipamConfigs, func(a any) bool {
+			return reflect.DeepEqual(a.(map[string]any)["subnet"], left["subnet"])
+		})
+		if indexIfExist < 0 {
+			ipamConfigs = append(ipamConfigs, left)
+			continue
+		}
+		merged, err := mergeMappings(ipamConfigs[indexIfExist].(map[string]any), left, path)
+		if err != nil {
+			return nil, err
+		}
+		ipamConfigs[indexIfExist] = merged
 	}
 	return ipamConfigs, nil
 }
